@@ -1,6 +1,6 @@
 (* C08 — property theorems (statements only; proofs live in Proofs*.v).  See notes/C08.md for the status of each. *)
 From Coq Require Import List ZArith QArith Qabs Bool.
-Require Import QV.C08.Model QV.C08.Spec QV.C08.Wf QV.C08.Proofs QV.C08.ProofsVec QV.C08.ProofsRev QV.C08.ProofsConst QV.C08.ProofsTotal QV.C08.ProofsProper QV.C08.ProofsCtor QV.C08.Hist QV.C08.ProofsHist QV.C08.ProofsTrafo QV.C08.ProofsConstT QV.C08.ProofsTotalT QV.C08.ProofsTable QV.C08.ProofsPar QV.C08.ProofsOp QV.C08.ProofsFlat QV.C08.ProofsDen QV.C08.ProofsSimple QV.C08.ProofsHistT QV.C08.Lin QV.C08.ProofsLin QV.C08.ProofsLinDen QV.C08.ProofsDedup QV.C08.ProofsLinHist QV.C08.ProofsR2 QV.C08.ProofsMirror QV.C08.ProofsOkb QV.C08.ProofsSubset QV.C08.ProofsRecipe.
+Require Import QV.C08.Model QV.C08.Spec QV.C08.Wf QV.C08.Proofs QV.C08.ProofsVec QV.C08.ProofsRev QV.C08.ProofsConst QV.C08.ProofsTotal QV.C08.ProofsProper QV.C08.ProofsCtor QV.C08.Hist QV.C08.ProofsHist QV.C08.ProofsTrafo QV.C08.ProofsConstT QV.C08.ProofsTotalT QV.C08.ProofsTable QV.C08.ProofsPar QV.C08.ProofsOp QV.C08.ProofsFlat QV.C08.ProofsDen QV.C08.ProofsSimple QV.C08.ProofsHistT QV.C08.Lin QV.C08.ProofsLin QV.C08.ProofsLinDen QV.C08.ProofsDedup QV.C08.ProofsLinHist QV.C08.ProofsR2 QV.C08.ProofsMirror QV.C08.ProofsOkb QV.C08.ProofsSubset QV.C08.ProofsRecipe QV.C08.ProofsRecipeT QV.C08.ProofsRecipeR QV.C08.ProofsMirrorT.
 Import ListNotations.
 Open Scope Q_scope.
 
@@ -447,3 +447,91 @@ Theorem C08_constructors_partial : forall r w wp, plainR r = true -> build r = O
   forall c t, inb c (channels wp) = true -> 0 <= t -> t < duration wp -> oQeq (sample w c t) (sample wp c t).
 Proof. exact constructors_plain_recipes. Qed.
 Print Assumptions C08_constructors_partial.
+
+(* ==== round 3 ==== *)
+
+(* ---- C08_constructors_statement for recipes WITH transformations (any kind: identity, scaling, offset, linear, parallel,
+   chains; from_transformation or the plain constructor) and every node kind of C08_constructors_partial; no reversal, no
+   get_subset_for_channels node.  Guards (all executable): [transR] = no such node + every transformation has the shape its
+   constructor guarantees ([t_wfb]) and duplicate-free dict keys / output channels ([t_nodupb]); [kfree wp] = no
+   transformation of the PLAIN composite raises KeyError for one of its output channels (known finding
+   C08-chain-parallel-linear-keyerror).  Last clause = the invariant carried through [build]: a channel without KeyError
+   on the plain composite has none on the built waveform. ---- *)
+Theorem C08_constructors_trafo : forall r w wp, transR r = true -> build r = OK w -> build_plain r = OK wp -> kfree wp = true ->
+  okb w = true /\ (forall c, inb c (channels w) = inb c (channels wp)) /\ duration w == duration wp /\
+  (forall c t, inb c (channels wp) = true -> 0 <= t -> t < duration wp -> oQeq (sample w c t) (sample wp c t)) /\
+  (forall c, inb c (channels wp) = true -> kerr wp c = false -> kerr w c = false).
+Proof. exact constructors_trafo_recipes. Qed.
+Print Assumptions C08_constructors_trafo.
+(* it generalises C08_constructors_partial: recipes without transformation nodes pass [transR] *)
+Theorem C08_plain_recipes_are_trafo_recipes : forall r, plainR r = true -> transR r = true.
+Proof. exact plainR_transR. Qed.
+Print Assumptions C08_plain_recipes_are_trafo_recipes.
+(* get_output_channels depends only on the SET of input channels; a transformation with duplicate-free keys maps a dict
+   with duplicate-free keys to one (so from_transformation's folded result is a well-formed waveform) *)
+Theorem C08_trafo_output_channels_extensional : forall T a b, (forall c, inb c a = inb c b) ->
+  match t_out T a, t_out T b with Some x, Some y => forall c, inb c x = inb c y | None, None => True | _, _ => False end.
+Proof. exact t_out_ext. Qed.
+Print Assumptions C08_trafo_output_channels_extensional.
+Theorem C08_from_transformation_wellformed : forall b T d w', okb b = true /\ canonb b = true -> t_wfb T = true -> t_nodupb T = true ->
+  okb (WTrans b T) = true -> cvd b = Some d -> t_const_inv T = true -> from_transformation b T = OK w' ->
+  (okb w' = true /\ canonb w' = true) /\ (forall c, inb c (channels w') = inb c (channels (WTrans b T))) /\ duration w' == duration b.
+Proof. exact from_transformation_fold_good. Qed.
+Print Assumptions C08_from_transformation_wellformed.
+
+(* ---- C08_constructors_statement for every recipe WITHOUT get_subset_for_channels nodes: transformations of any kind AND
+   reversal (ReversedWaveform(w), from_to_reverse, w.reversed()) anywhere, optimising or plain constructor at every node.
+   The unguarded statement is false below a reversal (C08_constructors_refuted); the executable time guard [rg] on the PLAIN
+   composite excludes exactly the times at which a ReversedWaveform that feeds the channel is asked at ITS local time 0
+   (through a transformation: every channel of the inner waveform).  Other guards as in C08_constructors_trafo. ---- *)
+Theorem C08_constructors_reversal : forall r w wp, revR r = true -> build r = OK w -> build_plain r = OK wp -> kfree wp = true ->
+  okb w = true /\ (forall c, inb c (channels w) = inb c (channels wp)) /\ duration w == duration wp /\
+  (forall c t, inb c (channels wp) = true -> 0 <= t -> t < duration wp -> rg wp c t = true -> oQeq (sample w c t) (sample wp c t)) /\
+  (forall c, inb c (channels wp) = true -> kerr wp c = false -> kerr w c = false).
+Proof. exact constructors_rev_recipes. Qed.
+Print Assumptions C08_constructors_reversal.
+(* the time guard excludes nothing when the plain composite has no ReversedWaveform node; recipes of C08_constructors_trafo
+   pass [revR] *)
+Theorem C08_time_guard_trivial_without_reversal : forall w, norevw w = true -> forall c t, rg w c t = true.
+Proof. exact rg_norev. Qed.
+Print Assumptions C08_time_guard_trivial_without_reversal.
+Theorem C08_trafo_recipes_are_reversal_recipes : forall r, transR r = true -> revR r = true.
+Proof. exact transR_revR. Qed.
+Print Assumptions C08_trafo_recipes_are_reversal_recipes.
+
+(* ---- the code denotes what DESIGN 4.4 says: reversal ANYWHERE and transformations of ANY kind together (closes "mirror law
+   with transformations below a reversal").  Below an odd number of reversals the denotation mirrors the time dependent
+   entries of a transformation (a + b t -> (a + b d) - b t) and applies it to the COMPLETE inner waveform; the code applies
+   the original transformation at the mirrored time to the channels get_input_channels selects.  Guards: [twf_all]
+   (constructor shape of every transformation), [kerr w c = false] (no KeyError on the path of the channel), [badT] = the
+   junction guard of C08_denotation_any_reversal, through a transformation taken over the channels the code samples.
+   Generalises C08_denotation_any_reversal / C08_mirror_law (no transformations) and C08_sample_is_denotation_T (reversal
+   only around leaves). ---- *)
+Theorem C08_denotation_any_reversal_T : forall w, okb w = true -> twf_all w = true -> forall c t,
+  inb c (channels w) = true -> kerr w c = false -> 0 <= t -> t < duration w -> badT false w c t = false ->
+  oQeq (den w c t) (sample w c t).
+Proof. exact den_is_sample_guarded_T. Qed.
+Print Assumptions C08_denotation_any_reversal_T.
+Theorem C08_mirror_law_T : forall w, okb w = true -> twf_all w = true -> forall c t,
+  inb c (channels w) = true -> kerr w c = false -> 0 <= t -> t < duration w -> badT false (WRev w) c t = false ->
+  oQeq (den (WRev w) c t) (sample w c (duration w - t)).
+Proof. exact mirror_law_den_T. Qed.
+Print Assumptions C08_mirror_law_T.
+Theorem C08_guard_without_transformations : forall w, no_trans w = true -> forall rv c t, badT rv w c t = bad rv w c t.
+Proof. exact badT_no_trans. Qed.
+Print Assumptions C08_guard_without_transformations.
+(* the mirrored transformation at the mirrored time is the transformation at the original time *)
+Theorem C08_trafo_mirror : forall T dd t t' d d', t' == dd - t -> deq d d' -> odeq (t_point (t_mirror dd T) t' d) (t_point T t d').
+Proof. exact t_point_mirror. Qed.
+Print Assumptions C08_trafo_mirror.
+
+(* get_subset_for_channels at the ROOT of a recipe of C08_constructors_reversal (composition with C08_subset): the time
+   guard of C08_subset concerns the BUILT inner waveform b; its transfer from the plain composite through every constructor
+   is not proved, it stays an executable hypothesis [tg b c t = true]; get_subset nodes BELOW other nodes: only tested. *)
+Theorem C08_constructors_getsubset_root : forall r cs b w' wp, revR r = true -> build r = OK b -> get_subset b cs = OK w' ->
+  build_plain (RGetSubset r cs) = OK wp -> kfree wp = true ->
+  okb w' = true /\ (forall c, inb c (channels w') = inb c (channels wp)) /\ duration w' == duration wp /\
+  forall c t, inb c (channels wp) = true -> 0 <= t -> t < duration wp -> rg wp c t = true -> tg b c t = true ->
+  oQeq (sample w' c t) (sample wp c t).
+Proof. exact constructors_getsubset_root. Qed.
+Print Assumptions C08_constructors_getsubset_root.
